@@ -13,7 +13,12 @@ ShapesW  == {s \in AllShapes(3, 3, 8) : Prod(s) >= 2}
 ShapesT  == AllShapes(3, 4, 36)
 ShapesTW == {s \in AllShapes(3, 4, 12) : Prod(s) >= 2}
 \* simulation: large
-ShapesS  == AllShapes(3, 5, 60)
+ShapesS  == {s \in AllShapes(3, 4, 16) : Prod(s) >= 4}
+\* representative small stores for exhaustive write enumeration (every rank, a 1-wide dimension,
+\* an extent of 3 so that a stepped parent has a child at a non-zero location)
+ShapesW1 == {<<3>>, <<2, 3>>, <<3, 1>>, <<2, 1, 2>>}
+ShapesW2 == {<<4>>, <<3, 2>>}
+ShapesA  == {<<4>>, <<2, 2>>, <<3, 2>>, <<2, 1, 2>>}
 Steps12  == {1, 2}
 Steps123 == {1, 2, 3}
 AllWrites == {"set", "apply", "applyslice", "copyfrom", "twoarray"}
